@@ -161,6 +161,7 @@ func injectBuiltInProps(
 	injectProps(object.BuiltInStrObj, toPairs(props.StrProps(ctn)), strNatives, iterableNatives, comparableNatives)
 	injectProps(object.BuiltInSyntaxErr, toPairs(props.SyntaxErrProps(ctn)))
 	injectProps(object.BuiltInTypeErr, toPairs(props.TypeErrProps(ctn)))
+	injectProps(object.BuiltInFileNotFoundErr, toPairs(props.FileNotFoundErrProps(ctn)))
 	injectProps(object.BuiltInValueErr, toPairs(props.ValueErrProps(ctn)))
 	injectProps(object.BuiltInWrappableObj, toPairs(props.WrappableProps(ctn)), wrappableNatives)
 	injectProps(object.BuiltInZeroDivisionErr, toPairs(props.ZeroDivisionErrProps(ctn)))
